@@ -81,8 +81,11 @@ def _turtle_job(args):
     ra, rb = os.path.join(work, f"ta{os.getpid()}_{idx}"), os.path.join(work, f"tb{os.getpid()}_{idx}")
     res = {"idx": idx, "seed": seed, "n": 8, "total": total, "chain": chain, "moves": TURTLE_MOVES[mi], "cap": None, "engine": "turtlemd"}
     try:
+        from harness import trace
         a, ea = turtlerun.chain(ra, seed, [total], TURTLE_MOVES[mi])
         b, eb = turtlerun.chain(rb, seed, chain, TURTLE_MOVES[mi])
+        if not eb and turtlerun.LAST_EVENTS:
+            res["trace"] = trace.encode_trace(list(turtlerun.LAST_EVENTS))
     except Exception as exc:  # noqa: BLE001
         res["harness_error"] = f"{type(exc).__name__}: {exc}"
         return res
@@ -173,7 +176,10 @@ def main(tier, replay=None):
             chk.violation(f"{kind}:differs:{r['diff']['file']};engine:turtlemd;seed_is_zero:{r['seed'] == 0}",
                           f"TurtleMD: {'two identical runs' if kind == 'rerun' else 'straight run and run split at ' + str(r['chain'][:-1])} "
                           f"(seed {r['seed']}) differ in {r['diff']['file']}", rp)
-    print(f"  TurtleMD split/straight comparisons (real scheduler, real pool): {len(tres)}", flush=True)
+    tt = [(r["trace"], {"binding": "C", "kind": "turtlemd-history", "run": {k: r[k] for k in ("seed", "total", "chain", "moves")}}) for r in tres if r.get("trace")]
+    if tt:      # the recorded split histories (TurtleMD, 8 ensembles, the unmodified scheduler) through the trace specification as well
+        sc.validate_multi({(8, 1): ([t for t, _m in tt], [m for _t, m in tt])})
+    print(f"  TurtleMD split/straight comparisons (real scheduler, real pool): {len(tres)}; {len(tt)} recorded histories validated by TraceInfretis.tla", flush=True)
     if results:
         chk.sample({"kind": "straight vs split run, files compared byte for byte", "example": {k: results[0][k] for k in ("seed", "n", "chain")}})
     print(f"  split/straight comparisons: {len(results)}", flush=True)
